@@ -761,16 +761,18 @@ class BufferAsyncCalls(Generic[T]):
             try:
                 await _load_inputs(await self._getting)
             except aio.TimeoutError:
-                await self._run_func(inputs)
+                if await self._run_func(inputs):
+                    return
             except aio.CancelledError:
                 if not self._flush:
                     raise  # Not cancelled by wait(), most likely shutdown
                 self._flush = False
-                await self._run_func(inputs)
+                if await self._run_func(inputs):
+                    return
             else:
                 self.q.task_done()
 
-    async def _run_func(self, inputs: Set[T]) -> None:
+    async def _run_func(self, inputs: Set[T]) -> bool:
         """
         Run :attr:`func` with the given set of inputs and set
         :attr:`event` once it has finished successfully.
@@ -778,6 +780,10 @@ class BufferAsyncCalls(Generic[T]):
         If an exception is raised, log it with its traceback and return
         without setting the event to prevent the buffered inputs from
         being lost.
+
+        :return:
+            True if the inputs were processed. The event can't be used
+            to tell as another thread may already have cleared it again.
         """
         try:
             if inputs:  # Could be empty if all empty iterators
@@ -786,8 +792,10 @@ class BufferAsyncCalls(Generic[T]):
             if isinstance(e, aio.CancelledError) and _being_cancelled():
                 raise  # This task is being cancelled, likely shutdown
             logging.exception("Failed to run %s, retrying", self.func)
+            return False
         else:
             self.event.set()
+            return True
 
     def _schedule_with_timeout(self, coro: Awaitable[X]) -> 'aio.Task[X]':
         """
